@@ -65,6 +65,7 @@ THEOREMS = [
     "XalanModel.Props.C09.backtracking_witnesses",
     "XalanModel.Props.C09.backtracking_class_total",
     "XalanModel.Props.C09.match_iff_select_repaired",
+    "XalanModel.Props.C09.idkey_match_iff_select",
 ]
 
 
@@ -114,9 +115,10 @@ def parse_reply(line):
     if line is None or not line.startswith("pat "):
         return None
     f = line.split(" ")
-    if len(f) < 5 or not f[-1].startswith("s=") or not f[-2].startswith("m=") or not f[-3].startswith("codes="):
+    if (len(f) < 6 or not f[-1].startswith("s=") or not f[-2].startswith("m=") or not f[-3].startswith("amb=")
+            or not f[-4].startswith("codes=")):
         return None
-    return dict(text=" ".join(f[1:-3]), codes=f[-3][6:], m=f[-2][2:], s=f[-1][2:])
+    return dict(text=" ".join(f[1:-4]), codes=f[-4][6:], amb=f[-3][4:], m=f[-2][2:], s=f[-1][2:])
 
 
 def violations(rep):
@@ -127,6 +129,10 @@ def violations(rep):
             out.append((i, "missed"))
         elif m != "0" and s == "0":
             out.append((i, "spurious"))
+    # the score must not depend on the caller's context node list (all nodes vs the node alone)
+    for i, a in enumerate(rep.get("amb", "")):
+        if a != "0":
+            out.append((i, "ambient"))
     return out
 
 
@@ -284,11 +290,8 @@ def process(ctx, harness, model, cases, work, tag, ncorpus=0):
                 ctx.extra.setdefault("violations_inside_proved_class", []).append(
                     dict(pattern=text, doc=g.xml_of(doc), what="spurious match inside the no-spurious class"))
         REPLIES.setdefault(tag, {}).setdefault(ci, [None] * len(pats))[pi] = rep
-        for (node, dr) in violations(rep)[:1]:
+        for dr in sorted(set(dr for _, dr in violations(rep))):
             bad.append(dict(doc=doc, P=P, dir=dr, rep=rep))
-        vs = set(dr for _, dr in violations(rep))
-        if len(vs) == 2:
-            bad.append(dict(doc=doc, P=P, dir="spurious" if bad[-1]["dir"] == "missed" else "missed", rep=rep))
         if iv != mv:
             disagree.append(dict(doc=doc, P=P, impl=iv, model=mv, what="reply"))
     return disagree, bad
@@ -425,8 +428,18 @@ def use_site_stylesheet(pats, fnpats=()):
     o.append('<xsl:key name="kn" match="*" use="name()"/><xsl:key name="kx" match="*[@x]" use="1"/>')
     # the root is visited separately: the union "//node() | //@* | /" delivers the root node last, and the
     # expression "/ | //node()" is rejected by the expression compiler (both outside C09)
+    # the same templates applied with a *different caller node list*: one apply-templates over all nodes of the
+    # document (document order), and one per parent over its child nodes; a matcher that reads position()/last() from
+    # the caller's list instead of re-evaluating the step gives different answers here
+    amb = []
+    for j in range(len(pats)):
+        amb.append('<xsl:text>A%d </xsl:text><xsl:apply-templates select="//node() | //@*" mode="m%d"/>'
+                   '<xsl:text>&#10;</xsl:text>' % (j, j))
+        amb.append('<xsl:text>C%d </xsl:text><xsl:apply-templates select="/node()" mode="m%d"/>'
+                   '<xsl:for-each select="//*"><xsl:apply-templates select="node()" mode="m%d"/>'
+                   '</xsl:for-each><xsl:text>&#10;</xsl:text>' % (j, j, j))
     o.append('<xsl:template match="/"><xsl:for-each select="/">%s</xsl:for-each>'
-             '<xsl:for-each select="//node() | //@*">%s</xsl:for-each></xsl:template>' % (body, body))
+             '<xsl:for-each select="//node() | //@*">%s</xsl:for-each>%s</xsl:template>' % (body, body, "".join(amb)))
     for j, P in enumerate(pats):
         o.append('<xsl:template match="%s" mode="m%d" priority="5">1</xsl:template>' % (xml_escape(g.render_pattern(P)), j))
         o.append('<xsl:template match="node()|@*|/" mode="m%d" priority="-5">0</xsl:template>' % j)
@@ -443,6 +456,7 @@ def use_sites(ctx, cases, replies, work, limit):
     cli = os.path.join(common.build_dir("hooks"), "src", "xalanc", "Xalan")
     n_ok = n_mask = n_same = 0
     n_fn = n_fn_match = 0
+    n_amb = [0]
     bad = []
     rr = Rng(ctx.seed * 7919 + 13)
     for ci, (doc, pats) in enumerate(cases[:limit]):
@@ -460,11 +474,36 @@ def use_sites(ctx, cases, replies, work, limit):
             f.write(use_site_stylesheet(pats, fnpats))
         rc, out = common.sh([cli, xmlf, xslf], timeout=120)
         lines = [l for l in out.split("\n") if l]
+        amb_lines = [l for l in lines if l[0] in "AC" and l[1:2].isdigit()]
+        lines = [l for l in lines if not (l[0] in "AC" and l[1:2].isdigit())]
         table = g.table_of(doc)
         if rc != 0 or len(lines) != len(table) or any(l[0] != t[0] for l, t in zip(lines, table)):
             bad.append(dict(site="cli", doc=g.xml_of(doc), pattern=[g.render_pattern(P) for P in pats],
                             what="unexpected CLI output rc=%d: %s" % (rc, out[-400:])))
             continue
+        # caller-node-list independence: the template decision per node must be the same whether the node was
+        # reached alone (select="."), among all nodes of the document, or among its siblings
+        parents = [int(t.split(":")[-1]) if t != "r" else -1 for t in table]
+        order_all = list(range(1, len(table)))
+        order_kids = [c for par in range(len(table)) if table[par][0] in "re"
+                      for c in range(len(table)) if parents[c] == par and c != 0 and table[c][0] != "a"]
+        for al in amb_lines:
+            tag, _, bits = al.partition(" ")
+            j = int(tag[1:])
+            order = order_all if tag[0] == "A" else order_kids
+            if j >= len(pats) or len(bits) != len(order) or any(ch not in "01" for ch in bits):
+                bad.append(dict(site="template-ambient", doc=g.xml_of(doc), pattern=g.render_pattern(pats[j]) if j < len(pats) else "?",
+                                what="malformed %s line %r (expected %d digits)" % (tag, bits[:80], len(order))))
+                continue
+            for k, node in enumerate(order):
+                single = lines[node].split(" ")[1:][j][0] if j < len(lines[node].split(" ")) - 1 else "?"
+                if bits[k] != single:
+                    bad.append(dict(site="template-ambient", doc=g.xml_of(doc), pattern=g.render_pattern(pats[j]), node=node,
+                                    what="template fired=%s when the node is reached by apply-templates select=%s, but %s "
+                                         "when reached alone (select=\".\"): the caller's node list influences matching"
+                                         % (bits[k], "//node()|//@*" if tag[0] == "A" else "node() from its parent", single)))
+                    break
+            n_amb[0] += len(order)
         for i, l in enumerate(lines):
             f = l.split(" ")[1:]
             for j, t in enumerate(fnpats):
@@ -517,10 +556,72 @@ def use_sites(ctx, cases, replies, work, limit):
     ctx.extra["use_sites"] = dict(documents=min(limit, len(cases)), node_pattern_site_agree_with_definition=n_ok,
                                   of_which_mask_a_getMatchScore_deviation=n_mask,
                                   show_the_getMatchScore_deviation=n_same, site_specific_violations=len(bad),
-                                  key_pattern_node_checks=n_fn, key_pattern_matches=n_fn_match)
+                                  key_pattern_node_checks=n_fn, key_pattern_matches=n_fn_match,
+                                  caller_list_independence_checks=n_amb[0])
     for b in bad[:20]:
         ctx.fail("use-site %s: %s" % (b["site"], b["pattern"]), "%s on %s node %s: %s" % (
             b["site"], b["doc"], b.get("node"), b["what"]), b)
+
+
+def idkey_stream(ctx, harness, model, work, ndocs, npat):
+    """id()-leading patterns (IdKeyPattern ('/'|'//') RelativePathPattern?) on documents with ID attributes: the real
+    compiler/matcher/expression engine vs the Lean model (`getMatchScoreFn`, `Spec.matchesFn`), same comparison as
+    for ordinary patterns; the node-set of the call is computed here from the generated document"""
+    r = Rng(ctx.seed * 104729 + 7)
+    lines, meta = ["variant %d %d %d %d" % VARIANT], [None]
+    for _ in range(ndocs):
+        doc = g.gen_doc(r, r.range(4, 22))
+        ids = g.add_ids(r, doc)
+        if not ids:
+            continue
+        g.set_pool(doc)
+        idx = g.index_of(doc)
+        t = g.table_of(doc)
+        lines.append("doc %s %d %s" % (g.xml_with_dtd(doc).encode().hex(), len(t), " ".join(t))); meta.append(("doc", doc))
+        for _ in range(npat):
+            vals = sorted(set(r.choice(sorted(ids)) for _ in range(r.range(1, 2))))
+            if r.chance(1, 8):
+                vals.append("nosuch")
+            txt = "id('%s')" % " ".join(vals)
+            S = sorted(idx[id(ids[v])] for v in vals if v in ids)
+            n = r.weighted([(0, 1), (1, 4), (2, 3), (3, 1)])
+            steps = [(r.choice("cd"), g.gen_step(r, i == n - 1, False)) for i in range(n)]
+            text = txt + "".join(("/" if sep == "c" else "//") + g.render_step(st) for sep, st in steps)
+            toks = " ".join("%s:%s:%s:%s" % (sep, "a" if st["attr"] else "c", g.tok_test(st["test"]),
+                                             ",".join(g.tok_pred(q) for q in st["preds"]) or "-") for sep, st in steps)
+            lines.append("fpat %s %s %s %s" % (text.encode().hex(), "".join("%04x" % ord(ch) for ch in txt),
+                                               ",".join(map(str, S)) or "-", toks))
+            meta.append(("pat", doc, text))
+    g.set_pool(None)
+    req = os.path.join(work, "c09_idkey.req")
+    with open(req, "w") as f:
+        f.write("\n".join(lines) + "\n")
+    il, ml, irc, mrc, ierr, merr = common.run_pair([harness], [model], req)
+    ok = irc == 0 and mrc == 0 and len(il) == len(lines) and len(ml) == len(lines)
+    nmatch = 0
+    dis = []
+    for li, mt in enumerate(meta):
+        iv = il[li] if li < len(il) else None
+        mv = ml[li] if li < len(ml) else None
+        if mt is None or mt[0] == "doc":
+            if iv != mv:
+                dis.append(dict(line=lines[li][:120], impl=iv, model=mv))
+            continue
+        rep = parse_reply(iv)
+        ctx.case(nontrivial_key=("idkey", mt[2], g.xml_of(mt[1])) if rep and set(rep["m"]) != {"0"} else None, cls="idkey")
+        if rep is None or iv != mv:
+            dis.append(dict(pattern=mt[2], doc=g.xml_with_dtd(mt[1]), impl=iv, model=mv))
+            continue
+        nmatch += set(rep["m"]) != {"0"}
+        for (node, dr) in violations(rep)[:1]:
+            ctx.fail("idkey %s: %s" % (dr, mt[2]), "pattern %s on %s: getMatchScore per node %s, selected per node %s, "
+                     "caller-list dependence %s" % (mt[2], g.xml_with_dtd(mt[1]), rep["m"], rep["s"], rep["amb"]),
+                     dict(pattern=mt[2], doc=g.xml_with_dtd(mt[1]), request=[lines[k] for k in range(li, 0, -1) if lines[k].startswith("doc ")][:1] + [lines[li]]))
+    ctx.extra["idkey_patterns"] = dict(cases=sum(1 for m in meta if m and m[0] == "pat"), with_a_match=nmatch,
+                                       disagreements=len(dis))
+    ctx.oblige("correspondence (id()-leading patterns): op codes F/G, getMatchScore of every node and the expression "
+               "engine's answer = Lean model (getMatchScoreFn, Spec.matchesFn)", "correspondence", ok and not dis,
+               json.dumps(dis[:3]) + ierr[-300:] + merr[-300:])
 
 
 def gen_cases(r, ndocs, npat, maxnodes):
@@ -600,6 +701,8 @@ def run(ctx):
                not ctx.extra.get("violations_inside_proved_class"),
                json.dumps(ctx.extra.get("violations_inside_proved_class", [])[:3]))
     use_sites(ctx, cases, REPLIES.get("main", {}), work, 150 if not ctx.thorough else 1500)
+    if VARIANT[3]:
+        idkey_stream(ctx, harness, model, work, 300 if not ctx.thorough else 6000, 8)
     ctx.oblige("correspondence: step op codes, XPath::getMatchScore of every node and the expression engine's answer "
                "for every node = Lean model on every generated (pattern, document)", "correspondence", not disagree,
                json.dumps(ctx.extra.get("model_disagreements", [])[:3]))
